@@ -27,6 +27,9 @@ def judge(res, code, feats, canary_offsets, resp):
     if not complete:
         res.inconc("reference-incomplete")
         return
+    if any("opaque-jump-target" in p.flags for p in paths):
+        res.inconc("reference-cannot-resolve-jump-target")
+        return
     res.judged += 1
     for f in feats:
         res.count("feat:" + f)
